@@ -622,6 +622,24 @@ fn chk_zero_len_dir(es: &[pmtiles2::Entry]) -> Result<(), String> {
     }
     Ok(())
 }
+/// hand-made directory bytes with over-wide length fields: the parsers must never yield an entry of length 0
+fn chk_dir_refused(c: Compression, plain: &[u8]) -> Result<(), String> {
+    let bytes = spec::codec_compress(comp_code(c) as u8, plain);
+    for asy in [false, true] {
+        match std::panic::catch_unwind(|| crate::ops::dir_dec(asy, c, &bytes)) {
+            Err(_) => return Err("parser panicked".into()),
+            Ok(Ok(es)) => {
+                // (a wide length whose low 32 bits are not zero is truncated by the varint reader; the contract at stake
+                // here is only that no entry of length 0 ever comes out)
+                if es.iter().any(|e| e.length == 0) {
+                    return Err(format!("parser returned an entry of length 0 ({} async={asy})", comp_tok(c)));
+                }
+            }
+            Ok(Err(_)) => {}
+        }
+    }
+    Ok(())
+}
 /// `ops` ends with the refused operation; state before and after must be equal
 fn chk_empty_add(mode: &str, prefix: &str, id: u64) -> Result<(), String> {
     let probe = "l;n;p;q";
@@ -740,6 +758,25 @@ pub fn gen_c19(rng: &mut Rng, quick: bool, st: &mut Stats) -> Vec<String> {
             st.bump("zero_length_positions");
         }
     }
+    // length fields that are zero only after narrowing to 32 bits (non-zero multiples of 2^32), and other over-wide lengths
+    for (k, len) in [1u64 << 32, 2 << 32, 3 << 32, (1 << 32) + 5, 1 << 35, 1 << 63, u64::MAX].iter().enumerate() {
+        for (j, pos) in [0usize, 1].iter().enumerate() {
+            // two entries; the wide length sits in the first or the last one
+            let mut plain = Vec::new();
+            for v in [2u64, 5, 4, 1, 1] {
+                spec::put_varint(v, &mut plain);
+            }
+            spec::put_varint(if *pos == 0 { *len } else { 7 }, &mut plain);
+            spec::put_varint(if *pos == 1 { *len } else { 7 }, &mut plain);
+            for v in [1u64, 0] {
+                spec::put_varint(v, &mut plain);
+            }
+            let comp = ALL_COMP[(k + j) % 4];
+            c.push(format!("chk_dir_refused {} {}", comp_tok(comp), hex_bytes(&plain)));
+            c.push(format!("dir_dec {} none {}", if (k + j) % 2 == 0 { "sync" } else { "async" }, hex_bytes(&plain)));
+            st.bump("lengths_wider_than_32_bits");
+        }
+    }
     // empty add at every point of a history (fresh ids, existing in-memory ids, reader-backed ids)
     let hist: Vec<String> = vec!["a:5:0102".into(), "a:6:0102".into(), "a:9:07".into(), "r:6".into(), "s:X:X".into(), "a:6:0909".into(), "a:7:07".into()];
     for mode in ["sync", "async"] {
@@ -844,6 +881,10 @@ pub fn run_chk(toks: &[&str]) -> Option<String> {
         ["chk_coord_sweep", lo, hi, step] => {
             let (lo, hi, step) = (unhex_u64(lo) as i64 + i64::from(i32::MIN), unhex_u64(hi) as i64 + i64::from(i32::MIN), unhex_u64(step) as i64);
             guard_chk(|| chk_coord_sweep(lo, hi, step))
+        }
+        ["chk_dir_refused", c, b] => {
+            let (c, b) = (parse_comp(c), unhex_bytes(b));
+            guard_chk(|| chk_dir_refused(c, &b))
         }
         ["chk_zero_len_dir", es] => {
             let es = parse_entries(es);
